@@ -175,6 +175,22 @@ def observe_replace(structure, search, replace, seed, _positional=False, **kwarg
         out["selected"] = list(range(len(out["found"]))) if not samples else list(samples[-1]["picked"])
     else:
         out["selected"] = None
+    # is the selection known? (a fraction below 1 and no draw seen at the one site the harness can script: the code may draw
+    # its selection in another way - then the selection is inferred from the outcome, or left open)
+    frac = kwargs.get("replace_fraction", 1.0)
+    out["selection_known"] = bool(samples) or frac is None or float(frac) >= 1.0 or not out["found"]
+    ends = [e for e in log if e["ev"] in ("replace.raise", "replace.ret")]
+    out["drawn_after_search"] = None
+    if finds and ends and finds[-1].get("rng") is not None and ends[-1].get("rng") is not None:
+        out["drawn_after_search"] = finds[-1]["rng"] != ends[-1]["rng"]
+    if not out["selection_known"] and out["result"] is not None:
+        sel = infer_selection(structure, out["result"], out["found"]) if _every_match_loses_an_atom(search, replace, kwargs) else None
+        if sel is not None:
+            out["selected"], out["selection_known"], out["selection_inferred"] = sel, True, True
+        else:
+            out["selected"] = None
+    elif not out["selection_known"]:
+        out["selected"] = None
     out["extends"] = [e for e in log if e["ev"] == "extend.call"]
     out["deleted"] = [e for e in log if e["ev"] == "delitem.call"]
     calls = [e for e in log if e["ev"] == "replace.call"]
@@ -182,6 +198,40 @@ def observe_replace(structure, search, replace, seed, _positional=False, **kwarg
     out["n_find_calls"] = len([e for e in log if e["ev"] == "find.call"])
     del events.LOG[n0:]
     return out
+
+
+def _els(a):
+    return [str(a.atom_type_elements[int(t)]) for t in a.atom_types]
+
+
+def _every_match_loses_an_atom(search, replace, kwargs):
+    """does replacing a match remove at least one structure atom? (everything, for an empty replacement or replace_all; otherwise
+    the search atoms that do not reappear - same element, same coordinates - in the replacement)"""
+    try:
+        if len(replace) == 0 or kwargs.get("replace_all", False):
+            return len(search) > 0
+        shared = shared_pairs({"elements": _els(search), "positions": np.asarray(search.positions, float)},
+                              {"elements": _els(replace), "positions": np.asarray(replace.positions, float)})
+        return len(set(shared.values())) < len(search)
+    except Exception:
+        return False
+
+
+def infer_selection(structure, result, found):
+    """which of the found matches were replaced, read off the result alone (atoms are named by their unique charges): a match
+    counts as replaced when at least one of its atoms is gone. Only decidable when the found matches are pairwise disjoint and
+    every replaced match loses at least one atom; otherwise None (the selection stays unknown, nothing is assumed)."""
+    if matches_overlap(found):
+        return None
+    try:
+        ids = [float(c) for c in structure.charges]
+        left = set(float(c) for c in result.charges)
+    except Exception:
+        return None
+    if len(set(ids)) != len(ids):
+        return None
+    sel = [k for k, m in enumerate(found) if any(ids[int(i)] not in left for i in m)]
+    return sel
 
 
 def matches_overlap(found):
